@@ -173,3 +173,203 @@ func (x *Value) Store(val interface{}) {
 	p, l, c := hdr(val)
 	lg(on, "vst", unsafe.Pointer(x), p, 0, 0, l, c, false)
 }
+
+// ---- the rest of the sync/atomic API. garr itself does not use it; an EDIT of garr may, and must still build, yield and be logged
+// (the models know none of these event kinds, so the acceptor rejects at the first of them; the Go monitors judge the run).
+
+func SwapInt32(addr *int32, new int32) int32 {
+	on := pt()
+	v := atomic.SwapInt32(addr, new)
+	lg(on, "swp32", unsafe.Pointer(addr), uint64(uint32(new)), 0, uint64(uint32(v)), 0, 0, false)
+	return v
+}
+func SwapInt64(addr *int64, new int64) int64 {
+	on := pt()
+	v := atomic.SwapInt64(addr, new)
+	lg(on, "swp64", unsafe.Pointer(addr), uint64(new), 0, uint64(v), 0, 0, false)
+	return v
+}
+func SwapUint32(addr *uint32, new uint32) uint32 {
+	on := pt()
+	v := atomic.SwapUint32(addr, new)
+	lg(on, "swpu32", unsafe.Pointer(addr), uint64(new), 0, uint64(v), 0, 0, false)
+	return v
+}
+func SwapUint64(addr *uint64, new uint64) uint64 {
+	on := pt()
+	v := atomic.SwapUint64(addr, new)
+	lg(on, "swpu64", unsafe.Pointer(addr), new, 0, v, 0, 0, false)
+	return v
+}
+func SwapPointer(addr *unsafe.Pointer, new unsafe.Pointer) unsafe.Pointer {
+	on := pt()
+	v := atomic.SwapPointer(addr, new)
+	lg(on, "swpp", unsafe.Pointer(addr), uint64(uintptr(new)), 0, uint64(uintptr(v)), 0, 0, false)
+	return v
+}
+func LoadUintptr(addr *uintptr) uintptr {
+	on := pt()
+	v := atomic.LoadUintptr(addr)
+	lg(on, "lduptr", unsafe.Pointer(addr), 0, 0, uint64(v), 0, 0, false)
+	return v
+}
+func StoreUintptr(addr *uintptr, v uintptr) {
+	on := pt()
+	atomic.StoreUintptr(addr, v)
+	lg(on, "stuptr", unsafe.Pointer(addr), uint64(v), 0, 0, 0, 0, false)
+}
+func AddUintptr(addr *uintptr, d uintptr) uintptr {
+	on := pt()
+	v := atomic.AddUintptr(addr, d)
+	lg(on, "adduptr", unsafe.Pointer(addr), uint64(d), 0, uint64(v), 0, 0, false)
+	return v
+}
+func SwapUintptr(addr *uintptr, new uintptr) uintptr {
+	on := pt()
+	v := atomic.SwapUintptr(addr, new)
+	lg(on, "swpuptr", unsafe.Pointer(addr), uint64(new), 0, uint64(v), 0, 0, false)
+	return v
+}
+func CompareAndSwapUintptr(addr *uintptr, old, new uintptr) bool {
+	on := pt()
+	ok := atomic.CompareAndSwapUintptr(addr, old, new)
+	lg(on, "casuptr", unsafe.Pointer(addr), uint64(old), uint64(new), 0, 0, 0, ok)
+	return ok
+}
+func AndInt32(addr *int32, mask int32) int32 {
+	on := pt()
+	v := atomic.AndInt32(addr, mask)
+	lg(on, "and32", unsafe.Pointer(addr), uint64(uint32(mask)), 0, uint64(uint32(v)), 0, 0, false)
+	return v
+}
+func OrInt32(addr *int32, mask int32) int32 {
+	on := pt()
+	v := atomic.OrInt32(addr, mask)
+	lg(on, "or32", unsafe.Pointer(addr), uint64(uint32(mask)), 0, uint64(uint32(v)), 0, 0, false)
+	return v
+}
+func AndUint32(addr *uint32, mask uint32) uint32 {
+	on := pt()
+	v := atomic.AndUint32(addr, mask)
+	lg(on, "andu32", unsafe.Pointer(addr), uint64(mask), 0, uint64(v), 0, 0, false)
+	return v
+}
+func OrUint32(addr *uint32, mask uint32) uint32 {
+	on := pt()
+	v := atomic.OrUint32(addr, mask)
+	lg(on, "oru32", unsafe.Pointer(addr), uint64(mask), 0, uint64(v), 0, 0, false)
+	return v
+}
+func AndInt64(addr *int64, mask int64) int64 {
+	on := pt()
+	v := atomic.AndInt64(addr, mask)
+	lg(on, "and64", unsafe.Pointer(addr), uint64(mask), 0, uint64(v), 0, 0, false)
+	return v
+}
+func OrInt64(addr *int64, mask int64) int64 {
+	on := pt()
+	v := atomic.OrInt64(addr, mask)
+	lg(on, "or64", unsafe.Pointer(addr), uint64(mask), 0, uint64(v), 0, 0, false)
+	return v
+}
+func AndUint64(addr *uint64, mask uint64) uint64 {
+	on := pt()
+	v := atomic.AndUint64(addr, mask)
+	lg(on, "andu64", unsafe.Pointer(addr), mask, 0, v, 0, 0, false)
+	return v
+}
+func OrUint64(addr *uint64, mask uint64) uint64 {
+	on := pt()
+	v := atomic.OrUint64(addr, mask)
+	lg(on, "oru64", unsafe.Pointer(addr), mask, 0, v, 0, 0, false)
+	return v
+}
+
+func (x *Value) Swap(new interface{}) interface{} {
+	on := pt()
+	r := x.v.Swap(new)
+	p, l, c := hdr(new)
+	lg(on, "vswp", unsafe.Pointer(x), p, 0, 0, l, c, false)
+	return r
+}
+func (x *Value) CompareAndSwap(old, new interface{}) bool {
+	on := pt()
+	ok := x.v.CompareAndSwap(old, new)
+	p, l, c := hdr(new)
+	lg(on, "vcas", unsafe.Pointer(x), p, 0, 0, l, c, ok)
+	return ok
+}
+
+// typed atomics, built on the functions above (so they yield and log like them)
+
+type Int32 struct{ v int32 }
+
+func (x *Int32) Load() int32                        { return LoadInt32(&x.v) }
+func (x *Int32) Store(v int32)                      { StoreInt32(&x.v, v) }
+func (x *Int32) Add(d int32) int32                  { return AddInt32(&x.v, d) }
+func (x *Int32) Swap(v int32) int32                 { return SwapInt32(&x.v, v) }
+func (x *Int32) CompareAndSwap(old, new int32) bool { return CompareAndSwapInt32(&x.v, old, new) }
+func (x *Int32) And(m int32) int32                  { return AndInt32(&x.v, m) }
+func (x *Int32) Or(m int32) int32                   { return OrInt32(&x.v, m) }
+
+type Int64 struct{ v int64 }
+
+func (x *Int64) Load() int64                        { return LoadInt64(&x.v) }
+func (x *Int64) Store(v int64)                      { StoreInt64(&x.v, v) }
+func (x *Int64) Add(d int64) int64                  { return AddInt64(&x.v, d) }
+func (x *Int64) Swap(v int64) int64                 { return SwapInt64(&x.v, v) }
+func (x *Int64) CompareAndSwap(old, new int64) bool { return CompareAndSwapInt64(&x.v, old, new) }
+func (x *Int64) And(m int64) int64                  { return AndInt64(&x.v, m) }
+func (x *Int64) Or(m int64) int64                   { return OrInt64(&x.v, m) }
+
+type Uint32 struct{ v uint32 }
+
+func (x *Uint32) Load() uint32                        { return LoadUint32(&x.v) }
+func (x *Uint32) Store(v uint32)                      { StoreUint32(&x.v, v) }
+func (x *Uint32) Add(d uint32) uint32                 { return AddUint32(&x.v, d) }
+func (x *Uint32) Swap(v uint32) uint32                { return SwapUint32(&x.v, v) }
+func (x *Uint32) CompareAndSwap(old, new uint32) bool { return CompareAndSwapUint32(&x.v, old, new) }
+func (x *Uint32) And(m uint32) uint32                 { return AndUint32(&x.v, m) }
+func (x *Uint32) Or(m uint32) uint32                  { return OrUint32(&x.v, m) }
+
+type Uint64 struct{ v uint64 }
+
+func (x *Uint64) Load() uint64                        { return LoadUint64(&x.v) }
+func (x *Uint64) Store(v uint64)                      { StoreUint64(&x.v, v) }
+func (x *Uint64) Add(d uint64) uint64                 { return AddUint64(&x.v, d) }
+func (x *Uint64) Swap(v uint64) uint64                { return SwapUint64(&x.v, v) }
+func (x *Uint64) CompareAndSwap(old, new uint64) bool { return CompareAndSwapUint64(&x.v, old, new) }
+func (x *Uint64) And(m uint64) uint64                 { return AndUint64(&x.v, m) }
+func (x *Uint64) Or(m uint64) uint64                  { return OrUint64(&x.v, m) }
+
+type Uintptr struct{ v uintptr }
+
+func (x *Uintptr) Load() uintptr                        { return LoadUintptr(&x.v) }
+func (x *Uintptr) Store(v uintptr)                      { StoreUintptr(&x.v, v) }
+func (x *Uintptr) Add(d uintptr) uintptr                { return AddUintptr(&x.v, d) }
+func (x *Uintptr) Swap(v uintptr) uintptr               { return SwapUintptr(&x.v, v) }
+func (x *Uintptr) CompareAndSwap(old, new uintptr) bool { return CompareAndSwapUintptr(&x.v, old, new) }
+
+type Bool struct{ v uint32 }
+
+func b32(b bool) uint32 {
+	if b {
+		return 1
+	}
+	return 0
+}
+func (x *Bool) Load() bool       { return LoadUint32(&x.v) != 0 }
+func (x *Bool) Store(v bool)     { StoreUint32(&x.v, b32(v)) }
+func (x *Bool) Swap(v bool) bool { return SwapUint32(&x.v, b32(v)) != 0 }
+func (x *Bool) CompareAndSwap(old, new bool) bool {
+	return CompareAndSwapUint32(&x.v, b32(old), b32(new))
+}
+
+type Pointer[T any] struct{ v unsafe.Pointer }
+
+func (x *Pointer[T]) Load() *T     { return (*T)(LoadPointer(&x.v)) }
+func (x *Pointer[T]) Store(v *T)   { StorePointer(&x.v, unsafe.Pointer(v)) }
+func (x *Pointer[T]) Swap(v *T) *T { return (*T)(SwapPointer(&x.v, unsafe.Pointer(v))) }
+func (x *Pointer[T]) CompareAndSwap(old, new *T) bool {
+	return CompareAndSwapPointer(&x.v, unsafe.Pointer(old), unsafe.Pointer(new))
+}
